@@ -598,6 +598,7 @@ func (cs *ContractSet) loadFile(path string) error {
 	var curLemma *Lemma
 	var lastClause *Clause
 	var pendingPred *Predicate
+	inAssigns := false
 	fail := func(i int, format string, a ...interface{}) error {
 		return fmt.Errorf("%s:%d: %s", path, i+1, fmt.Sprintf(format, a...))
 	}
@@ -828,13 +829,23 @@ func (cs *ContractSet) loadFile(path string) error {
 			if rest == "" || rest == "nothing" {
 				break
 			}
+			inAssigns = true
 			for _, part := range splitTop(rest) {
+				if part == "" {
+					continue
+				}
 				e, err := ParseExpr(part)
 				if err != nil {
 					return fail(i, "%v", err)
 				}
 				cur.Assigns = append(cur.Assigns, AssignTarget{Src: part, E: e})
 			}
+		case "ghostparam":
+			// ghostparam <name> <go type>: universally quantified logical parameter
+			if len(fields) < 3 {
+				return fail(i, "malformed ghostparam")
+			}
+			cur.Ghosts = append(cur.Ghosts, fields[1]+" "+strings.Join(fields[2:], " "))
 		case "inline":
 			cur.Inline = true
 		case "pure":
@@ -855,10 +866,28 @@ func (cs *ContractSet) loadFile(path string) error {
 			}
 			cur.Extra["callback."+fields[1]] = append(cur.Extra["callback."+fields[1]], strings.Join(fields[2:], " "))
 		default:
+			if inAssigns && lastClause == nil {
+				for _, part := range splitTop(body) {
+					if part == "" {
+						continue
+					}
+					e, err := ParseExpr(part)
+					if err != nil {
+						return fail(i, "%v", err)
+					}
+					cur.Assigns = append(cur.Assigns, AssignTarget{Src: part, E: e})
+				}
+				continue
+			}
 			if lastClause == nil {
 				return fail(i, "unknown clause %q", kw)
 			}
 			lastClause.Src += " " + body
+		}
+		if kw != "assigns" {
+			if _, isKw := map[string]bool{"props": true, "requires": true, "ensures": true, "alloc_bound": true, "site": true, "loop": true, "inline": true, "pure": true, "trusted": true, "noverify": true, "may_panic": true, "callback": true, "ghostparam": true}[kw]; isKw {
+				inAssigns = false
+			}
 		}
 	}
 	if err := finishClause(len(lines)); err != nil {
